@@ -13,7 +13,14 @@
 // A failure is attributed to the pinned github.com/jech/samplebuilder when a
 // stand-alone instance of that package, fed exactly the packets the recorder
 // was observed to receive (Write arguments and GetPacket results, in order),
-// shows the same defect; such violations get the key prefix "samplebuilder:".
+// shows the same defect (or never releases the frame / a keyframe before it);
+// such violations get the key "samplebuilder:<delivery class>".  The same
+// stand-alone run also tells apart, for the key only, three recorder defects
+// that show whenever the builder releases frames late: "stale-keyframe" (a
+// keyframe released after another keyframe's first packet arrived is no longer
+// recognised), "first-keyframe-released-by-closing-flush" (the file is created
+// inside close(), after the audio writer was closed, and is never finalised)
+// and "origin-moved-by-sender-report".  C20_DEBUG=<session> dumps one session.
 package main
 
 import (
@@ -208,6 +215,8 @@ type track struct {
 	getHits    int
 	kfRequests int
 	delLocal   int
+	selfFetch  int // GetPacket asked for the very packet being written
+	writing    int // packet index inside Write, -1 outside
 
 	maxDelay   float64 // max (arrival - capture) over delivery events, ms
 	maxGapRun  int
@@ -263,6 +272,9 @@ func (t *track) GetPacket(seqno uint16, result []byte, nack bool) uint16 {
 	}
 	n := copy(result, raw)
 	t.getHits++
+	if pi == t.writing {
+		t.selfFetch++
+	}
 	t.recovered[pi] = true
 	if t.firstPush[pi] < 0 {
 		t.firstPush[pi] = t.s.evno
@@ -387,7 +399,6 @@ func buildVideo(s *session, r *rand.Rand) *track {
 	}
 	seq := uint16(r.UintN(60000))
 	interval := 1000.0 / float64(p.Fps)
-	// expected number of packets to place a seqno wrap inside the session
 	picID := uint16(r.UintN(1 << 15))
 	tl0 := uint8(r.UintN(256))
 	w, h := uint32(64*(1+r.IntN(20))), uint32(48*(1+r.IntN(20)))
@@ -878,6 +889,7 @@ func buildSession(run *vk.Run, p params) *session {
 		evs = addSR(t, evs, r, when)
 		all = append(all, evs...)
 		t.delivered = make([]bool, len(t.pkts))
+		t.writing = -1
 		t.recovered = make([]bool, len(t.pkts))
 		t.firstPush = make([]int64, len(t.pkts))
 		for i := range t.firstPush {
@@ -934,6 +946,7 @@ func (s *session) drive() error {
 		}
 	}
 	t0 := time.Now()
+	scratch := make([]byte, 1504)
 	for i, e := range s.events {
 		s.evno = int64(i)
 		t := s.trackById(e.trk)
@@ -948,9 +961,18 @@ func (s *session) drive() error {
 		// the server stores a packet in its cache before forwarding it
 		t.mu.Lock()
 		t.delivered[e.pkt] = true
+		t.writing = e.pkt
 		t.mu.Unlock()
-		n, err := t.local.Write(raw)
+		// like the server's writer loop, hand over a buffer that is reused
+		// for the next packet
+		buf := scratch[:len(raw)]
+		copy(buf, raw)
+		n, err := t.local.Write(buf)
+		for i := range buf {
+			buf[i] = 0xA5
+		}
 		t.mu.Lock()
+		t.writing = -1
 		if t.firstPush[e.pkt] < 0 {
 			t.firstPush[e.pkt] = int64(i)
 		}
@@ -1054,7 +1076,7 @@ func allZero(b []byte) bool {
 	return true
 }
 
-// payloadOf returns what the packet contributes to the sample (for diagnosis only).
+// hasRecovered tells whether a packet of the frame was served through GetPacket.
 func (t *track) hasRecovered(f *frame) (bool, int) {
 	for k := f.p0; k < f.p0+f.pn; k++ {
 		if t.recovered[k] {
@@ -1064,8 +1086,35 @@ func (t *track) hasRecovered(f *frame) (bool, int) {
 	return false, 0
 }
 
+// longestZeroRun: ground-truth frames are hash streams, a long run of zero
+// bytes in a sample is padding.
+func longestZeroRun(d []byte) int {
+	best, cur := 0, 0
+	for _, c := range d {
+		if c <= 1 { // 0x01: the start codes a depacketiser makes out of zero-length NAL units
+			cur++
+			if cur > best {
+				best = cur
+			}
+		} else {
+			cur = 0
+		}
+	}
+	return best
+}
+
 // describeInexact explains a sample that equals no frame.
 func (t *track) describeInexact(d []byte, after int) (clause string, fi int, what string) {
+	clause, fi, what = t.describeInexact1(d, after)
+	if clause == "frame-corrupt" && t.getHits > 0 {
+		if z := longestZeroRun(d); z >= 64 {
+			return "recovered-frame-padded", -1, fmt.Sprintf("%s; it contains a run of %d zero (or empty-NAL start code) bytes, which no frame sent contains, and %d packets of this track were withheld from Write and served by GetPacket", what, z, t.getHits)
+		}
+	}
+	return
+}
+
+func (t *track) describeInexact1(d []byte, after int) (clause string, fi int, what string) {
 	best, bestL := -1, 0
 	for i := range t.frames {
 		l := lcp(d, t.frames[i].data)
@@ -1098,7 +1147,7 @@ func (t *track) describeInexact(d []byte, after int) (clause string, fi int, wha
 			return "frame-padded", best, fmt.Sprintf("frame %d was sent as %d bytes and written as %d bytes: %d zero bytes inserted at offset %d", best, len(f.data), len(d), len(d)-len(f.data), p)
 		}
 		if rec, k := t.hasRecovered(f); rec {
-			// several recovered packets: remove runs of zeros greedily at packet boundaries
+			// several recovered packets, several runs of padding
 			return "recovered-frame-padded", best, fmt.Sprintf("frame %d was sent as %d bytes in %d packets and written as %d bytes (first difference at offset %d); packet %d of the frame (seqno %d) was withheld from Write and served by GetPacket", best, len(f.data), f.pn, len(d), p, k, t.pkts[f.p0+k].seq)
 		}
 		return "frame-corrupt", best, fmt.Sprintf("a %d byte sample starting like frame %d (%d bytes, %d packets) for %d bytes", len(d), best, len(f.data), f.pn, p)
@@ -1459,8 +1508,50 @@ func (s *session) replay() map[string]any {
 	return map[string]any{"session": s.p.Session, "thorough": s.p.Thorough, "params": s.p, "delivery": s.summary}
 }
 
+// Violations are collected and reported after all sessions ran, simplest
+// delivery history first, so that the witness printed (and the replay file
+// written) for a key is the smallest one found, independent of scheduling.
+type pendingViolation struct {
+	key, what string
+	replay    any
+	rank      [3]int
+}
+
+var (
+	pendingMu sync.Mutex
+	pending   []pendingViolation
+)
+
+var classRank = map[string]int{"inorder": 0, "gap-cache": 1, "gap-lost": 2, "dup": 3, "reorder": 4, "late-start": 5, "reorder-dup": 6, "gap-cache-reorder-dup": 7, "gap-mixed": 8}
+
 func (s *session) violation(key, what string) {
-	s.run.Violation(key, fmt.Sprintf("session %d (%s%s, %s, end=%s): %s", s.p.Session, s.p.Video, map[bool]string{true: "+opus", false: ""}[s.p.Audio], s.p.Class, s.p.End, what), s.replay())
+	v := pendingViolation{
+		key:    key,
+		what:   fmt.Sprintf("session %d (%s%s, %s, end=%s): %s", s.p.Session, s.p.Video, map[bool]string{true: "+opus", false: ""}[s.p.Audio], s.p.Class, s.p.End, what),
+		replay: s.replay(),
+		rank:   [3]int{classRank[s.p.Class], len(s.events), int(s.p.Session)},
+	}
+	pendingMu.Lock()
+	pending = append(pending, v)
+	pendingMu.Unlock()
+}
+
+func reportViolations(run *vk.Run) {
+	pendingMu.Lock()
+	defer pendingMu.Unlock()
+	sort.SliceStable(pending, func(i, j int) bool {
+		a, b := pending[i].rank, pending[j].rank
+		for k := range a {
+			if a[k] != b[k] {
+				return a[k] < b[k]
+			}
+		}
+		return false
+	})
+	for _, v := range pending {
+		run.Violation(v.key, v.what, v.replay)
+	}
+	pending = nil
 }
 
 func (s *session) summarise() {
@@ -1770,13 +1861,17 @@ func (s *session) check() {
 				is.sig = fmt.Sprintf("o:%d", is.frame)
 				refSig[is.sig] = true
 			}
-			if refSig[is.sig] {
+			notFetched := (is.clause == "frame-missing" || is.clause == "not-flushed") && is.frame >= 0 && !t.allPushed(&t.frames[is.frame])
+			if refSig[is.sig] && !notFetched && t.selfFetch == 0 {
 				key = "samplebuilder:" + p.Class
 				if p.H264Multi && t.codec == "h264" {
 					key = "samplebuilder:h264-keyframe-split-per-nal"
 				}
 				is.what = is.clause + ": " + is.what + " - the pinned sample builder alone, fed the packets the recorder received, does the same"
 			} else {
+				if t.selfFetch > 0 {
+					is.what += fmt.Sprintf(" (the recorder asked GetPacket %d times for the very packet it was being handed by Write)", t.selfFetch)
+				}
 				switch is.clause {
 				case "timecode-decreases", "frame-missing", "not-flushed":
 					if is.clause != "timecode-decreases" && is.frame >= 0 && !t.allPushed(&t.frames[is.frame]) {
@@ -1925,8 +2020,22 @@ func (s *session) check() {
 	if nontrivial {
 		run.Distinct(p.shape())
 	}
-	if !anyIssue && p.Session < 3 {
-		run.Sample(map[string]any{"params": p, "delivery": s.summary, "files": len(s.files), "blocks": nblocks})
+	if p.Session < 3 {
+		// the first delivery events written out: a = audio, v = video packet
+		// index, SR = sender report; then what the recording held
+		var head []string
+		for i, e := range s.events {
+			if i >= 40 {
+				break
+			}
+			switch {
+			case e.pkt < 0:
+				head = append(head, fmt.Sprintf("SR%s", map[int]string{0: "a", 1: "v"}[e.trk]))
+			default:
+				head = append(head, fmt.Sprintf("%s%d", map[int]string{0: "a", 1: "v"}[e.trk], e.pkt))
+			}
+		}
+		run.Sample(map[string]any{"params": p, "delivery": s.summary, "first_events": strings.Join(head, " "), "files": len(s.files), "blocks": nblocks, "clean": !anyIssue})
 	}
 }
 
@@ -2033,6 +2142,7 @@ func main() {
 				runSession(run, uint64(si), th)
 			}
 		}
+		reportViolations(run)
 		run.Finish("exploration", "replay of one recorded session")
 	}
 
@@ -2042,6 +2152,7 @@ func main() {
 		var i uint64
 		fmt.Sscan(d, &i)
 		runSession(run, i, thorough)
+		reportViolations(run)
 		run.Finish("exploration", "debug run of one session")
 	}
 	workers := runtime.GOMAXPROCS(0)
@@ -2064,6 +2175,7 @@ func main() {
 		}()
 	}
 	wg.Wait()
+	reportViolations(run)
 
 	run.FloorCounter("sessions", int64(n*9/10))
 	run.FloorCounter("blocks_verified_exact", int64(run.Pick(5000, 200000)))
@@ -2088,9 +2200,9 @@ func main() {
 		run.FloorCounter("codec_h264", 300)
 	}
 	run.Assume("streams are RTP-conformant: the marker bit ends every video frame (RFC 7741/6184, VP9 payload), one Opus frame per packet, 20 ms; keyframes carry their header in the first packet; constant resolution within a session")
-	run.Assume("delivery stays inside the recorder's reorder window: displacement <= 10 packets (6 for audio), withheld runs <= 35 packets (4 for audio); the server cache holds a withheld packet from the start and any other packet once it was forwarded")
+	run.Assume("delivery stays inside the recorder's reorder window: displacement <= 10 packets (6 for audio) and never more than 400 ms late, withheld runs of 1..35 packets (1..4 for audio; runs may merge, always far below 256); a late start precedes the first packet by at most 20 packets (8 for audio); the server cache holds a withheld packet from the start and any other packet once it was forwarded; the buffer passed to Write is reused afterwards, as the server's writer loop does")
 	run.Assume("completeness is demanded from the first complete keyframe that starts at or after the first packet the recorder saw (audio next to video: from the first audio frame written), for every frame when nothing is unrecoverable, and otherwise only for the frames behind the last unrecoverable packet (they are buffered in the recorder when it is closed: flush)")
-	run.Assume("without sender reports the recorder can only align tracks by arrival: the allowed audio/video origin error then includes the arrival skew the harness introduced (path delay, displacement, withheld runs) and the measured wall time of the session; blocks pushed after both tracks received a sender report must agree within max(one video frame interval, 40 ms)")
+	run.Assume("the harness does not sleep, so audio only starts after the video when both tracks carry sender reports from the start; without sender reports the recorder can only align tracks by arrival: the allowed audio/video origin error then includes the arrival skew the harness introduced (path delay, displacement, withheld runs) and the measured wall time of the session; blocks pushed after both tracks received a sender report must agree within max(one video frame interval, 40 ms)")
 	run.Assume("attribution to github.com/jech/samplebuilder is by running that package alone on the packets the recorder was observed to receive; it only changes the violation key, never the verdict")
 	run.Finish("exploration", rule)
 }
